@@ -126,9 +126,6 @@ Section RT4.
     - apply IH. intros e0 Hin. apply Hp. right. exact Hin.
   Qed.
 
-  Lemma groomed_tag_renamed c t : groomed_tag c true t = (t, true).
-  Proof. unfold groomed_tag. destruct (ci_rename c) as [[w p]|]; reflexivity. Qed.
-
   (** after ungroom: the first child tagged with the python name carries the wire name; the reader takes it back *)
   Lemma goods_renamed fe c wire py : ci_rename c = Some (wire, py) -> wire <> py ->
     forall ch specs, Forall2 (good fe c) ch specs ->
@@ -146,7 +143,8 @@ Section RT4.
       + unfold groomed_tag. rewrite Hr. cbn [negb andb etag]. rewrite String.eqb_refl. reflexivity.
       + cbn [etag]. unfold ConvertPlaces.entry_value in *. cbn [etext] in *. destruct (is_unsup a); [exact Hv|]. rewrite Htx in *. exact Hv.
       + cbn [etag]. unfold quiet. cbn [etext]. intros _ Hf. rewrite Htx in Hf. discriminate.
-      + apply goods_plain; [exact F|]. intros e0 _. apply groomed_tag_renamed.
+      + apply goods_plain; [exact F|]. intros e0 Hin. unfold groomed_tag. rewrite Hr.
+        destruct (String.eqb_spec (etag e0) wire) as [E|_]; [|reflexivity]. exfalso. apply (Hnw e0); [right; exact Hin|exact E].
     - apply (goods_cons fe c false false (Node t x cs) (rename_first py wire ch) k a v specs t idx); try assumption.
       + unfold groomed_tag. rewrite Hr. cbn [negb andb etag]. destruct (String.eqb_spec t wire) as [E|_]; [|reflexivity].
         exfalso. apply (Hnw (Node t x cs)); [left; reflexivity|exact E].
